@@ -97,9 +97,11 @@ class Setter:
     """The per-key loop body of a setter, compiled to closures over
     (state dict, arg symbol, world)."""
 
-    def __init__(self, fn: ast.FunctionDef, name: str):
+    def __init__(self, fn: ast.FunctionDef, name: str, methods: Optional[Dict[str, ast.FunctionDef]] = None):
         self.name = name
         self.fn = fn
+        self.methods = methods or {}
+        self._inline_depth = 0
         loop = None
         for s in fn.body:
             if isinstance(s, ast.For) and isinstance(s.iter, ast.Call) and isinstance(s.iter.func, ast.Attribute) \
@@ -153,6 +155,16 @@ class Setter:
             if isinstance(node.op, ast.And):
                 return lambda env, st, w, parts=parts: all(p(env, st, w) for p in parts)
             return lambda env, st, w, parts=parts: any(p(env, st, w) for p in parts)
+        if isinstance(node, ast.Call) and isinstance(node.func, ast.Name) and node.func.id in ("min", "max") and len(node.args) == 2 and not node.keywords:
+            a, b = self._expr(node.args[0]), self._expr(node.args[1])
+            pick_min = node.func.id == "min"
+
+            def mm(env, st, w, a=a, b=b, pick_min=pick_min):
+                x, y = a(env, st, w), b(env, st, w)
+                if pick_min:
+                    return x if w[x] <= w[y] else y
+                return x if w[x] >= w[y] else y
+            return mm
         if isinstance(node, ast.Call) and isinstance(node.func, ast.Name) and node.func.id in ("_is_boolean",):
             return lambda env, st, w: True  # type checks: the analysis passes well-typed arguments
         raise AnalysisError(f"{self.name}: expression outside the order fragment: {norm(node)} (line {node.lineno})")
@@ -185,6 +197,23 @@ class Setter:
                     raise AnalysisError(f"{self.name}: store to {norm(tgt)} at line {s.lineno} not understood")
             elif isinstance(s, ast.Expr) and isinstance(s.value, ast.Constant):
                 continue
+            elif isinstance(s, ast.Expr) and isinstance(s.value, ast.Call) and isinstance(s.value.func, ast.Attribute) \
+                    and isinstance(s.value.func.value, ast.Name) and s.value.func.value.id == "self" and s.value.func.attr in self.methods:
+                # helper method applied to the same key: inline its body
+                call = s.value
+                h = self.methods[call.func.attr]
+                hp = [a.arg for a in h.args.args if a.arg != "self"]
+                if self._inline_depth >= 2 or len(hp) != 1 or len(call.args) != 1 or not isinstance(call.args[0], ast.Name) \
+                        or call.args[0].id != self.key_name or call.keywords:
+                    raise AnalysisError(f"{self.name}: helper call {norm(call)} at line {s.lineno} cannot be inlined")
+                saved = self.key_name
+                self.key_name = hp[0]
+                self._inline_depth += 1
+                try:
+                    prog.extend(self._compile_block([x for x in h.body if not (isinstance(x, ast.Expr) and isinstance(x.value, ast.Constant))]))
+                finally:
+                    self.key_name = saved
+                    self._inline_depth -= 1
             elif isinstance(s, ast.Pass):
                 continue
             else:
@@ -247,9 +276,18 @@ ARG_RECOGNISERS: List[Tuple[str, str]] = [
 ]
 
 
-def classify_arg(call: ast.Call, who: str) -> str:
+def classify_arg(call: ast.Call, who: str, fn: Optional[ast.AST] = None) -> str:
     """Which abstract symbol the (per-key) argument of a setter call denotes."""
-    parts = [norm(a) for a in call.args] + [norm(k.value) for k in call.keywords]
+    def expand(e: ast.AST) -> str:
+        # one-step resolution of a local name bound by a plain assignment in the enclosing function
+        if fn is not None and isinstance(e, ast.Name):
+            for n in walk_ordered(fn):
+                if isinstance(n, (ast.Assign, ast.AnnAssign)) and n.value is not None:
+                    t = n.targets[0] if isinstance(n, ast.Assign) else n.target
+                    if isinstance(t, ast.Name) and t.id == e.id:
+                        return norm(n.value)
+        return norm(e)
+    parts = [expand(a) for a in call.args] + [expand(k.value) for k in call.keywords]
     text = " ".join(parts)
     # constant ±inf dictionary comprehension / literal
     for k in call.keywords:
